@@ -441,10 +441,26 @@ where
                 scope.spawn(move || {
                     let (mut tmp_ggsw, scratch_1) = scratch_thread.take_ggsw(ggsw_infos);
                     let (mut tmp_lwe, scratch_2) = scratch_1.take_lwe(bits);
+                    #[cfg(feature = "verif-hooks")]
+                    crate::verif_hooks::at("fhe_uint_prepare", crate::verif_hooks::Point::ChunkStart, thread_index, start);
                     for (local_bit, dst) in res_bits_chunk.iter_mut().enumerate() {
+                        #[cfg(feature = "verif-hooks")]
+                        crate::verif_hooks::at(
+                            "fhe_uint_prepare",
+                            crate::verif_hooks::Point::ItemStart,
+                            thread_index,
+                            start + local_bit,
+                        );
                         bits.get_bit_lwe(self, start + local_bit, &mut tmp_lwe, ks_glwe, ks_lwe, scratch_2);
                         cbt.execute_to_constant(self, &mut tmp_ggsw, &tmp_lwe, 1, 1, scratch_2);
                         self.ggsw_prepare(dst, &tmp_ggsw, scratch_2);
+                        #[cfg(feature = "verif-hooks")]
+                        crate::verif_hooks::at(
+                            "fhe_uint_prepare",
+                            crate::verif_hooks::Point::ItemEnd,
+                            thread_index,
+                            start + local_bit,
+                        );
                     }
                 });
             }
